@@ -102,6 +102,58 @@ def bad_predecessor_path(cfg):
     return path
 
 
+def nostuff_open_frame_path(cfg, k):
+    """no stuffing: noise that OPENS a frame (flag + header announcing 2047 octets + filler) which is never completed, then
+    flag-free frames; every frame starting beyond 2047 + one frame length after the noise must be delivered. The two octets that
+    follow the point where the over-long frame is given up (what a reader restarting there would take for a length field) are free."""
+    def path(eng, ctx):
+        hdr = [0xA7, 0xFF, 0x03, 0x21, 0x13]
+        head = [0x7E] + hdr + [ref.fcs16(hdr) & 0xFF, ref.fcs16(hdr) >> 8]
+
+        def build(fill, free_at=None):
+            frames, wire, starts, i = [], list(head) + [0x55] * fill, [], 0
+            spans = []
+            while len(wire) < len(head) + fill + 2 * 2047 + 200:
+                pay = [(0x30 + i + j) & 0x7F if ((0x30 + i + j) & 0x7F) not in (0x7E, 0x7D) else 0x11 for j in range(12)]
+                ctrl = 0x10 + (i % 8) * 2
+                i += 1
+                f = ref.build_frame([0x03], [0x21], ctrl, pay)
+                if 0x7E in f or 0x7D in f:
+                    continue
+                wire += [0x7E]
+                st = len(wire)
+                if free_at is not None and st + 7 <= free_at[0] and free_at[1] < st + 7 + 12:
+                    fp = list(pay)
+                    for n_, pos_ in enumerate(free_at):
+                        fp[pos_ - st - 7] = sym_octet(f"q{n_}")
+                    f = HC.build_frame([0x03], [0x21], ctrl, fp)
+                    for o in f:
+                        if not isinstance(o, int):
+                            eng.assume(o != 0x7E)
+                            eng.assume(o != 0x7D)
+                starts.append(st); frames.append(f); spans.append((st + 7, st + 7 + 12))
+                wire += f
+            wire += [0x7E]
+            return frames, wire, starts, spans
+        land = None
+        for fill in range(k, k + 30):
+            frames, wire, starts, spans = build(fill)
+            a_, b_ = 2049, 2050                          # frame octet #2048 is stream[2048]; the next two octets follow the give-up point
+            if any(lo <= a_ and b_ < hi for lo, hi in spans):
+                land = (fill, (a_, b_))
+                break
+        fill, free_at = land
+        frames, wire, starts, spans = build(fill, free_at)
+        n_noise = len(head) + fill
+        flen = max(len(f) for f in frames)
+        must = [f for s_, f in zip(starts, frames) if s_ > n_noise + 2047 + flen]
+        stream = SBytes(wire)
+        n = len(stream)
+        expect_assertions(eng, ctx, cfg, stream, must, frames, [(), (n_noise,), (n // 2,)], f"no-stuffing, noise opens a 2047-octet frame (filler {fill})")
+        ctx.count("n:must_frames", len(must))
+    return path
+
+
 def nostuff_resync_path(cfg, k):
     """no stuffing: k free noise octets, then ~2200 octets of concrete flag-free frames; every frame starting more than
     2047 + one frame length after the noise must be delivered."""
@@ -148,6 +200,10 @@ def scenarios(tier):
         out.append(Scenario(f"hdlc no-stuffing resync k={2 if q else 4} {HC.cfg_name(cfg)}", nostuff_resync_path(cfg, 2 if q else 4),
                             bounds={"noise": f"{2 if q else 4} free octets", "suffix": ">= 2047 + 3 frames of concrete flag-free frames", "claim": "frames starting beyond noise + 2047 + one frame length are delivered",
                                     "configuration": HC.cfg_name(cfg)}, domains=("hdlc",), frontier=4, assumptions=A, replay_cap=20))
+    for cfg in [(False, False), (False, True)]:
+        out.append(Scenario(f"hdlc no-stuffing: noise opens a frame announcing 2047 octets + {1 if q else 3} free, then > 4 KiB of clean frames {HC.cfg_name(cfg)}", nostuff_open_frame_path(cfg, 1 if q else 3),
+                            bounds={"noise": "7E + valid header announcing 2047 octets + filler; the two octets after the give-up point are free", "suffix": "about 4.3 KiB of concrete flag-free frames", "claim": "frames starting beyond noise + 2047 + one frame length are delivered",
+                                    "configuration": HC.cfg_name(cfg)}, domains=("hdlc",), frontier=3, workers=4, assumptions=A, replay_cap=10))
     try:
         from checks import p1_common
         out += p1_common.c16_scenarios(tier)
